@@ -623,6 +623,9 @@ func fixedCases() []*Case {
 	inv := func(q, nav, input string) {
 		cs = append(cs, &Case{Kind: "inv", Q: []string{q, nav, "error"}, Input: input, Op: "inv"})
 	}
+	// a computed EMPTY array: pathIntact compares slices by pointer and length, and every zero-capacity slice has the same
+	// (runtime zero-base) pointer, so an empty array computed from the input is taken for the input's own empty array
+	inv("del(.a | . - [1] | .[])", ".a | . - [1] | .[]", `{"a":[]}`)
 	inv("path(1|.a)", "1|.a", "null")
 	inv("path([.]|.[0])", "[.]|.[0]", "null")
 	inv("([1]|.[0]) = 1", "[1]|.[0]", "null")
